@@ -390,6 +390,42 @@ fn main() {
         let (p, s, st, refs) = &streams_ref[si];
         unit(ctx_ref, Part::Murmur3, p, *s, st, refs, l, all_max, four_max);
     });
+    // ---- constructed preimages: keys whose RAW Murmur3 h1 is exactly Long.MIN_VALUE (must come out as
+    // Long.MAX_VALUE) and the neighbouring boundary values; one block (all compositions) and two blocks
+    let before_pre = r.evaluations.load(Ordering::Relaxed);
+    let n_free = r.tier().pick(64u64, 256u64);
+    let mut pre_streams: Vec<(String, u64, Vec<u8>, Vec<i64>)> = Vec::new();
+    let mut raw_min = 0u64;
+    for target in [i64::MIN, i64::MIN + 1, i64::MAX, -1, 0] {
+        for i in 0..n_free {
+            let free = (i + 1).wrapping_mul(0x9e37_79b9_7f4a_7c15) ^ (target as u64).rotate_left(17);
+            let mut datas = vec![cqlref::murmur3::invert_block16(target, free).to_vec()];
+            if i < 8 {
+                let prefix: Vec<u8> = (0..16).map(|j| (0x80 + 11 * j + i) as u8).collect();
+                let mut two = prefix.clone();
+                two.extend_from_slice(&cqlref::murmur3::invert_last_block(&prefix, target, free));
+                datas.push(two);
+            }
+            for d in datas {
+                if cqlref::murmur3::hash3_x64_128(&d).0 as i64 != target {
+                    vcore::machinery_error("constructed preimage does not hash to its target");
+                }
+                if target == i64::MIN {
+                    raw_min += 1;
+                }
+                let refs = (0..=d.len()).map(|n| cqlref::murmur3::murmur3_token(&d[..n])).collect();
+                pre_streams.push((format!("preimage-of-{target}"), i, d, refs));
+            }
+        }
+    }
+    let pre_ref = &pre_streams;
+    vcore::par::for_each(jobs, 1, 0..pre_streams.len(), |k| {
+        let (p, s, st, refs) = &pre_ref[k];
+        unit(ctx_ref, Part::Murmur3, p, *s, st, refs, st.len(), all_max, four_max);
+    });
+    r.counters.add("murmur3_preimage_inputs", pre_streams.len() as u64);
+    r.counters.add("murmur3_inputs_with_raw_hash_exactly_i64_min", raw_min);
+    r.counters.add("murmur3_preimage_chunkings", r.evaluations.load(Ordering::Relaxed) - before_pre);
     let covered: u32 = classes.iter().map(|a| a.load(Ordering::Relaxed).count_ones()).sum();
     r.note("murmur3_transition_classes_exercised", json!(covered));
     r.note("murmur3_transition_classes_total", json!(768));
@@ -432,11 +468,11 @@ fn main() {
         unit(cdc_ctx_ref, Part::Cdc, p, *s, st, refs, l, cdc_all_max, 0);
     });
     r.counters.add("cdc_chunkings", r.evaluations.load(Ordering::Relaxed) - before);
-    r.counters.add("murmur3_chunkings", before);
+    r.counters.add("murmur3_chunkings_incl_preimages", before);
 
     report_best(&r, &best);
     r.set_rule(&format!(
-        "E-ENUM. Murmur3: {} byte patterns (0x00.., 0xFF.., 0x80.., ascending from 0x7E, alternating 0x7F/0x80, seeded fills) x lengths 0..=70 u {{79,80,81,95,96,97,127,128,129,255,256,257}}; every composition of L for L<={all_max} (also with empty writes interleaved for L<=10), every 3-chunk split with empty chunks allowed{} plus uniform chunk streams / 16k+d cut sets / single-byte cuts around each 16-byte boundary for larger L; both the concrete hasher and the PartitionerName enum dispatch; finish() compared with the one-shot reference after EVERY prefix. CDC: 9 patterns (incl. first 8 bytes = i64::MIN / i64::MAX) x lengths 0..={cdc_all_max} u {{24,32,33}}, every composition. distinct_nontrivial = chunkings with >=2 chunks in which some write starts at a non-zero buffer fill and completes a 16-byte block (CDC: starts inside the 8-byte buffer and runs past its end).",
+        "E-ENUM. Murmur3: {} byte patterns (0x00.., 0xFF.., 0x80.., ascending from 0x7E, alternating 0x7F/0x80, seeded fills) x lengths 0..=70 u {{79,80,81,95,96,97,127,128,129,255,256,257}}; every composition of L for L<={all_max} (also with empty writes interleaved for L<=10), every 3-chunk split with empty chunks allowed{} plus uniform chunk streams / 16k+d cut sets / single-byte cuts around each 16-byte boundary for larger L; plus constructed preimages (single-block inversion of Murmur3, cqlref::murmur3::invert_last_block): 16-byte keys (all compositions) and 32-byte keys whose RAW hash is exactly i64::MIN (token must be i64::MAX), MIN+1, MAX, -1, 0, with many different free h2 values; both the concrete hasher and the PartitionerName enum dispatch; finish() compared with the one-shot reference after EVERY prefix. CDC: 9 patterns (incl. first 8 bytes = i64::MIN / i64::MAX) x lengths 0..={cdc_all_max} u {{24,32,33}}, every composition. distinct_nontrivial = chunkings with >=2 chunks in which some write starts at a non-zero buffer fill and completes a 16-byte block (CDC: starts inside the 8-byte buffer and runs past its end).",
         streams.len(),
         format!(", every 4-chunk split for L<={four_max}")
     ));
@@ -446,7 +482,6 @@ fn main() {
     r.sample(json!({"partitioner":"murmur3","key":"kremówki","reference_token":cqlref::murmur3::murmur3_token("kremówki".as_bytes()),"chunks":[3,1,5]}));
     r.sample(json!({"partitioner":"murmur3","pattern":"80","len":17,"reference_token":cqlref::murmur3::murmur3_token(&[0x80;17]),"textbook_unsigned_tail_token":cqlref::murmur3::hash3_x64_128_canonical_h1(&[0x80;17]) as i64}));
     r.sample(json!({"partitioner":"cdc","data_hex":"8000000000000000","reference_token":i64::MAX,"note":"Long.MIN_VALUE normalised"}));
-    r.assume("no Murmur3 preimage of Long.MIN_VALUE is known, so MIN->MAX normalisation is exercised at Token::new and through the CDC partitioner (8 bytes 0x80 00..), not through a Murmur3 input");
     r.assume("CDC keys are 16-byte stream ids; for other lengths >= 8 the reference follows the ScyllaDB revision the driver cites (first 8 bytes big-endian), shorter keys get the minimum token");
     r.finish();
 }
